@@ -12,6 +12,7 @@ model follows the repaired code (`self.0.is_none()`); `withTop_isTop_only_none` 
 statement and `isTop_iff_greatest` now closes for `WithTop`.
 -/
 import HvLat.Laws.AllB
+import HvLat.Gen.Tables
 
 namespace HvLat
 
@@ -204,5 +205,57 @@ example :
     let c : Option Nat × List (Nat × List Nat) := (none, [(9, [9])])
     ok3 t = true ∧ (lat t).cmp a b = some .lt ∧ (lat t).cmp c a = some .lt ∧ (lat t).cmp b a = some .gt := by
   exact ⟨rfl, rfl, rfl, rfl⟩
+
+
+/-! ### tie to the source: the tables regenerated from lattices/src on every run (`Gen/Tables.lean`,
+written by lean/HvLat/translate_tables.py) are the functions of the model -/
+
+open Gen in
+theorem gen_withBot_cmp_eq (L : Lat β) (s o : Option β) :
+    (Lat.withBot L).cmp s o = withBotCmp L s o ∧ (Lat.withBot L).beq s o = withBotEq L s o := by
+  cases s <;> cases o <;> simp only [Lat.withBot, withBotCmp, withBotEq] <;> (try exact ⟨rfl, rfl⟩)
+  all_goals (constructor <;> split <;> first | rfl | simp_all)
+
+open Gen in
+theorem gen_withTop_cmp_eq (L : Lat β) (s o : Option β) :
+    (Lat.withTop L).cmp s o = withTopCmp L s o ∧ (Lat.withTop L).beq s o = withTopEq L s o := by
+  cases s <;> cases o <;> exact ⟨rfl, rfl⟩
+
+open Gen in
+theorem gen_with_isBot_isTop (L : Lat β) (s : Option β) :
+    (Lat.withBot L).isBot s = withBotIsBot L s ∧ (Lat.withBot L).isTop s = withBotIsTop L s ∧
+    (Lat.withTop L).isBot s = withTopIsBot L s ∧ (Lat.withTop L).isTop s = withTopIsTop L s :=
+  ⟨rfl, rfl, rfl, rfl⟩
+
+open Gen in
+theorem gen_conflict_cmp_eq (s o : Option Nat) :
+    Lat.conflict.cmp s o = conflictCmp s o ∧ Lat.conflict.beq s o = conflictEq s o := by
+  cases s <;> cases o <;> exact ⟨rfl, rfl⟩
+
+open Gen in
+/-- the `IsTop` / `IsBot` / `Default` table of ord.rs -/
+theorem gen_ord_table :
+    (∀ b s, (Lat.maxN b).isTop s = (maxNum 0 b).isTop s ∧ (Lat.maxN b).isBot s = (maxNum 0 b).isBot s) ∧
+    (∀ b, (Lat.maxN b).dflt = (maxNum 0 b).dflt) ∧
+    (∀ b s, (Lat.minN b).isTop s = (minNum 0 b).isTop s ∧ (Lat.minN b).isBot s = (minNum 0 b).isBot s) ∧
+    (∀ b, (Lat.minN b).dflt = (minNum 0 b).dflt) ∧
+    (∀ h s, (Lat.maxI h).isTop s = (maxNum (-((h : Int) + 1)) (h : Int)).isTop s ∧
+            (Lat.maxI h).isBot s = (maxNum (-((h : Int) + 1)) (h : Int)).isBot s) ∧
+    (∀ h, (Lat.maxI h).dflt = (maxNum (-((h : Int) + 1)) (h : Int)).dflt) ∧
+    (∀ h s, (Lat.minI h).isTop s = (minNum (-((h : Int) + 1)) (h : Int)).isTop s ∧
+            (Lat.minI h).isBot s = (minNum (-((h : Int) + 1)) (h : Int)).isBot s) ∧
+    (∀ h, (Lat.minI h).dflt = (minNum (-((h : Int) + 1)) (h : Int)).dflt) ∧
+    (∀ s, Lat.maxB.isTop s = maxBool.isTop s ∧ Lat.maxB.isBot s = maxBool.isBot s) ∧ Lat.maxB.dflt = maxBool.dflt ∧
+    (∀ s, Lat.minB.isTop s = minBool.isTop s ∧ Lat.minB.isBot s = minBool.isBot s) ∧ Lat.minB.dflt = minBool.dflt ∧
+    -- `char`: the same bodies as the numeric macro with `'\x00'` / `char::MAX`
+    (@maxChar = @maxNum ∧ @minChar = @minNum) ∧
+    -- `Max<()>` / `Min<()>`: top and bottom at once, no `Default`
+    (maxUnit.isTop () = true ∧ maxUnit.isBot () = true ∧ maxUnit.dflt = none ∧
+     minUnit.isTop () = true ∧ minUnit.isBot () = true ∧ minUnit.dflt = none) ∧
+    numericTypes = ["isize", "i8", "i16", "i32", "i64", "i128", "usize", "u8", "u16", "u32", "u64", "u128"] := by
+  refine ⟨fun b s => ⟨?_, ?_⟩, fun _ => rfl, fun b s => ⟨?_, ?_⟩, fun _ => rfl, fun h s => ⟨?_, ?_⟩, fun _ => rfl,
+    fun h s => ⟨?_, ?_⟩, fun _ => rfl, fun s => ⟨rfl, rfl⟩, rfl, fun s => ⟨rfl, rfl⟩, rfl, ⟨rfl, rfl⟩,
+    ⟨rfl, rfl, rfl, rfl, rfl, rfl⟩, rfl⟩
+  all_goals (simp only [Lat.maxN, Lat.minN, Lat.maxI, Lat.minI, maxNum, minNum]; exact BEq.comm)
 
 end HvLat
